@@ -85,7 +85,7 @@ pub fn gen_s1(focus: &str, seed: u64) -> S1Scenario {
     let mode = match focus {
         "C01" => *rng.pick(&["exhaustive", "exhaustive", "exhaustive", "mixed"]),
         "C02" => *rng.pick(&["exhaustive", "exhaustive", "exhaustive", "mixed"]),
-        "C03" => *rng.pick(&["mixed", "mixed", "exhaustive", "timeout"]),
+        "C03" => *rng.pick(&["mixed", "mixed", "exhaustive", "timeout", "diamond"]),
         "C05" => *rng.pick(&["exhaustive", "exhaustive", "mixed", "panic", "timeout", "tail-timeout", "tail-panic"]),
         "C11" => *rng.pick(&["exhaustive", "exhaustive", "mixed", "timeout"]),
         "C12" => *rng.pick(&["mixed", "mixed", "timeout", "timeout", "tail-timeout", "depth", "target"]),
@@ -199,6 +199,36 @@ pub fn gen_s1(focus: &str, seed: u64) -> S1Scenario {
                 threads = 1;
                 finish = Finish::AnyOf(vec!["nosuch".into()]);
             }
+        }
+        "diamond" => {
+            // joins whose two parents disagree on an eventually-property, explored by racing workers:
+            // 0 -> {1, 2} -> 3 -> {4, 5} -> 6 ...; the property holds on the odd "left" states only
+            let k = rng.range(1, 3) as usize;
+            let n = 3 * k + 1;
+            graph.n = n;
+            graph.shape = "diamond".to_string();
+            graph.inits = vec![0];
+            graph.boundary = vec![true; n];
+            graph.edges = vec![Vec::new(); n];
+            let mut bits = vec![false; n];
+            for d in 0..k {
+                let b = 3 * d;
+                graph.edges[b] = if rng.chance(1, 2) { vec![Some(b as u16 + 1), Some(b as u16 + 2)] } else { vec![Some(b as u16 + 2), Some(b as u16 + 1)] };
+                graph.edges[b + 1] = vec![Some(b as u16 + 3)];
+                graph.edges[b + 2] = vec![Some(b as u16 + 3)];
+                bits[b + 1] = true;
+            }
+            graph.props = vec![PropSpec { kind: Kind::Eventually, bits }, PropSpec { kind: Kind::Always, bits: vec![true; n] }];
+            graph.panic = None;
+            graph.tail = false;
+            strategy = *rng.pick(&[Strategy::Bfs, Strategy::Bfs, Strategy::Dfs, Strategy::OnDemand]);
+            threads = 2 + rng.usize_below(2);
+            finish = Finish::All;
+            visitor = rng.chance(1, 2);
+            polls = 0;
+            sched.block_size = 1;
+            sched.stall_ppm = 0;
+            sched.policy = crate::sched::Policy::Random { stick_pct: *rng.pick(&[0u8, 50]) };
         }
         "tail-panic" => {
             // an effectively unbounded chain plus a side branch on which a worker panics: the
@@ -323,6 +353,14 @@ pub fn gen_s1(focus: &str, seed: u64) -> S1Scenario {
     if focus == "C05" && threads >= 3 && rng.chance(1, 3) {
         threads += rng.usize_below(3); // up to 6 workers
     }
+    let pre_requests: Vec<u16> = if strategy == Strategy::OnDemand && focus == "C05" && rng.chance(1, 4) {
+        // a long burst of requests before run-to-completion (queues must not fill up)
+        (0..rng.range(70, 200)).map(|_| rng.below(graph.n as u64) as u16).collect()
+    } else if strategy == Strategy::OnDemand && rng.chance(1, 2) {
+        (0..rng.range(1, 4)).map(|_| rng.below(graph.n as u64) as u16).chain(graph.inits.iter().cloned().take(1)).collect()
+    } else {
+        vec![]
+    };
     let chooser = if rng.chance(1, 2) { ChooserKind::Uniform } else { ChooserKind::Adversarial };
     S1Scenario {
         graph,
@@ -337,6 +375,7 @@ pub fn gen_s1(focus: &str, seed: u64) -> S1Scenario {
         chooser,
         polls,
         drop_without_join,
+        pre_requests,
         sched,
     }
 }
